@@ -60,6 +60,20 @@ def gen_cases(rng, tier):
             xs = [xs[0]] * 3
         q = (lambda v: g(v)) if rng.random() < 0.6 else (lambda v: f2b(v))
         cases.append(("quad_edge", [q(xs[0]), q(ys[0]), q(xs[1]), q(ys[1]), q(xs[2]), q(ys[2]), rng.choice([0, 0, 2])]))
+    # CubicEdge, bit-exact: y-monotone cubics (as chopped by the edge builder) and arbitrary ones (the update loop pins newy)
+    for i in range(1500 if tier == "quick" else 20000):
+        k = rng.random()
+        span = rng.choice([3.0, 20.0, 60.0, 300.0, 2000.0])
+        ys = [rng.uniform(-5, span) for _ in range(4)]
+        if k < 0.8:
+            ys.sort()
+            if rng.random() < 0.5:
+                ys.reverse()
+        if k < 0.15:
+            ys[1] = ys[0]
+        xs = [rng.uniform(-5, span) for _ in range(4)]
+        q = (lambda v: g(v)) if rng.random() < 0.6 else (lambda v: f2b(v))
+        cases.append(("cubic_edge", [q(xs[0]), q(ys[0]), q(xs[1]), q(ys[1]), q(xs[2]), q(ys[2]), q(xs[3]), q(ys[3]), rng.choice([0, 0, 2])]))
     # (b) polygons inside the clip, bit-exact spans
     m = 1500 if tier == "quick" else 20000
     for i in range(m):
@@ -159,7 +173,7 @@ def gen_cases(rng, tier):
 
 
 def oracle(suite, args, out):
-    if suite in ("line_edge", "quad_edge"):
+    if suite in ("line_edge", "quad_edge", "cubic_edge"):
         return None   # crate-internal function driven directly: its debug assertions are preconditions
     if out.startswith(("PANIC", "CRASH", "HANG")):
         return "implementation did not return: " + out[:200]
@@ -187,7 +201,7 @@ def known_class(suite, args, out, what):
 def relation(suite, args, mo, io):
     if mo == io or mo.strip() == "-9":
         return True
-    if mo.strip() == "-1" and (io.startswith("PANIC") or suite in ("line_edge", "quad_edge")):
+    if mo.strip() == "-1" and (io.startswith("PANIC") or suite in ("line_edge", "quad_edge", "cubic_edge")):
         # -1 = a debug assertion of the fixed-point conversion fails: a panic in checked builds, an unspecified value in
         # release builds (the raw LineEdge hook is never reached with such coordinates through the public API: the edge
         # builder clips first)
@@ -198,9 +212,9 @@ def relation(suite, args, mo, io):
 def nontrivial_tag(suite, args, out):
     if suite == "line_edge":
         return "edge" if out.strip() != "-2" else None
-    if suite == "quad_edge":
+    if suite in ("quad_edge", "cubic_edge"):
         o = out.split()
-        return "quad:%s" % ("many" if o and o[0].isdigit() and int(o[0]) > 2 else "few") if o and o[0].isdigit() and int(o[0]) > 0 else None
+        return suite[:4] + ":%s" % ("many" if o and o[0].isdigit() and int(o[0]) > 2 else "few") if o and o[0].isdigit() and int(o[0]) > 0 else None
     if suite == "fill_spans":
         return "spans" if len(out.split()) >= 3 else None
     o = out.split()
